@@ -63,8 +63,10 @@ def _case(draw):
         c['subset'] = draw(st.lists(st.booleans(), min_size=3, max_size=3))
         c['negative'] = draw(st.booleans())
     if part == 'cache':
-        c['ops'] = draw(st.lists(st.sampled_from(['get', 'set_interp', 'get', 'clear', 'path_b', 'path_a', 'add', 'get', 'memory']),
-                                 min_size=3, max_size=12))
+        pool = st.sampled_from(['get', 'set_interp', 'get', 'clear', 'path_b', 'path_a', 'add', 'get', 'memory'])
+        # every history contains a load, a mode change and a further request somewhere
+        c['ops'] = draw(st.lists(pool, max_size=5)) + ['get', 'set_interp'] + draw(st.lists(st.sampled_from(['path_b', 'path_a']), max_size=1)) + \
+            ['get'] + draw(st.lists(pool, max_size=5))
         c['fmt'] = draw(st.sampled_from(['pickle', 'hdf5', 'exo']))
     return c
 
@@ -230,6 +232,26 @@ def check_ktable(out, c, tmp):
             out.applies('si-values')
             if v.shape != want.shape or not close(v, want, rtol=1e-9, atol=1e-13 * float(want.max()) + 1e-300):
                 out.fail('si-values@%s,%s' % (fmt, c['mode']), 'T=%g P=%g Pa: %s, reference %s' % (T, P, v.ravel()[:3], want.ravel()[:3]))
+    # discovery through the k-table cache, one format per directory
+    from taurex.cache import GlobalCache
+    from taurex.cache.ktablecache import KTableCache
+    for fmt, fn in (('ktable-pickle', p1), ('ktable-hdf5', p2)):
+        d = os.path.join(tmp, 'only_' + fmt)
+        os.makedirs(d)
+        shutil.copy(fn, d)
+        synth.reset_world()
+        GlobalCache()['ktable_path'] = d
+        kc = KTableCache()
+        kc.clear_cache()
+        out.applies('ktable-discovery')
+        found = cut(out, 'find_list_of_molecules@' + fmt, kc.find_list_of_molecules)
+        if plain not in found:
+            out.fail('ktable-discovery@' + fmt, 'file %s: molecules found %s, expected %s' % (os.path.basename(fn), sorted(found), plain))
+            continue
+        got = cut(out, 'ktable-cache-get@' + fmt, kc.__getitem__, plain)
+        if got.moleculeName != plain or kc[plain] is not got:
+            out.fail('ktable-discovery@%s,object' % fmt, 'served %r / not the same object twice' % got.moleculeName)
+    synth.reset_world()
     return bool(len(w) >= 2 and tab.shape[0] > 1 and tab.shape[1] > 1)
 
 
